@@ -51,6 +51,13 @@ let check_tokens (cfg : econfig) (ops : eop list) (tr : tok list) : unit =
     let op = (try List.nth ops n with _ -> OAdvance Z0) in
     (match op with OAdvance d -> now := !now + zi d | _ -> ());
     let unit_of_op = (match op with OStep (i, u, _) -> Some (zi i, u) | _ -> None) in
+    (* the error counters live in the memory of a service instance: a crash of the instance starts them afresh
+       (C13 quantifies over interleavings of failures, not over crashes) *)
+    let reset_inst i = Hashtbl.filter_map_inplace (fun (i', _, _, _) v -> if i' = i then None else Some v) fail_count in
+    (match op with
+     | OCrash i -> reset_inst (zi i)
+     | OStep (i, _, pl) when List.exists (fun (_, f) -> f = FCrash) pl -> reset_inst (zi i)
+     | _ -> ());
     (* ---------------- token-local clauses ---------------- *)
     List.iter (fun t ->
       match t with
@@ -148,7 +155,9 @@ let check_tokens (cfg : econfig) (ops : eop list) (tr : tok list) : unit =
        (* C11: every sender opened is closed *)
        let opens = List.length (List.filter (function TCall (KNS, _, ROk, _) -> true | _ -> false) seg)
        and closes = List.length (List.filter (function TCall (KSC, _, _, _) -> true | _ -> false) seg) in
-       if on "C11" && opens <> closes then bad "C11" "relay opened %d senders and closed %d" opens closes;
+       let crashed = (match op with OStep (_, _, pl) -> List.exists (fun (_, f) -> f = FCrash) pl | _ -> false) in
+       (* nothing is observed of an instance after it crashed, so the balance is only demanded of operations that did not crash *)
+       if on "C11" && not crashed && opens <> closes then bad "C11" "relay opened %d senders and closed %d" opens closes;
        ignore inst
      | Some (inst, u) when is_consumer u ->
        let key = (inst, u) in
@@ -248,8 +257,8 @@ let check_tokens (cfg : econfig) (ops : eop list) (tr : tok list) : unit =
          (* a cancelled timer's run has moved on or finished; completion only after a stored transition *)
          let last_lk = ref None and stored = ref false in
          List.iter (function
-           | TLookup (KLK, _, ROk, r) -> last_lk := r; stored := false
-           | TStore (_, _, a) -> if eff a then stored := true
+           | TLookup ((KLK | KLT), _, ROk, r) -> last_lk := r; stored := false
+           | TStore (_, r, a) -> if eff a then (stored := true; last_lk := Some r)
            | TTEnd (KTX, id, _) ->
              (match !last_lk with
               | Some r -> if r.r_status = s && not (rs_finished r.r_state) then bad "C12" "timer %d cancelled although its run still waits at status %d" (zi id) (zi s)
@@ -285,7 +294,7 @@ let check_tokens (cfg : econfig) (ops : eop list) (tr : tok list) : unit =
          | TLookup (KLT, _, ROk, Some l) -> if stores <> [] && rs_valid l.r_state && not (rs_finished l.r_state) then bad "C09" "Trigger created a run while run %d is unfinished" (ni l.r_run)
          | _ -> ()) seg;
        ignore fid
-     | (OCtl (_, o, _)) when on "C03" ->
+     | (OCtl (_, o, _, _)) when on "C03" ->
        let stores = List.filter (function TStore _ -> true | _ -> false) seg in
        let api_ok = List.exists (function TApi z -> zi z = 0 | _ -> false) seg in
        let looked = List.find_opt (function TLookup (KLK, _, ROk, Some _) -> true | _ -> false) seg in
